@@ -62,6 +62,10 @@ claim("C07", "duration table via resolved option-accessor chains, branch-effect 
       "Static structural conditions only: ping delay = PingInterval; deadline = PingTimeout (v4) or PingInterval+PingTimeout (v3); each ping starts its deadline; the deadline closes with reason 'ping timeout' unless closed; PONG/PING branches have exactly their documented effects and the wrong-direction edges only onError+return; the direction test uses the same quantity (s.protocol) that armed the timers, so no Timer method runs on a nil holder; Refresh re-arms on every path; close and clearTransport cancel the timers. The timing clauses themselves (closed exactly at the deadline and never before; never closed if answered in time) are real-time relations and are NOT decided.",
       TB, "DESIGN.md §3 C07")
 
+claim("C08", "sibling gate agreement by edge dominance, who-may-install-a-transport, branch-effect rules of the upgrade listener, cleanup-before-close on every non-switch exit, atomic claim (CAS) rule, listener-before-reader typestate",
+      "Static rules over engine/server.go and engine/socket.go MaybeUpgrade: both upgrade entry points reach MaybeUpgrade only for a known, not upgrading, not upgraded session with a successfully created candidate and close the connection otherwise; the transport is installed only by setTransport and, in the listener, only on UPGRADE ∧ not closed (upgraded set there, never reset); the probe is answered with one PONG probe on the candidate and the check interval re-armed, NOOP only on a writable polling transport; every non-switch outcome runs cleanup before closing the candidate and never touches the session or its transport; the upgrading claim is one CompareAndSwap whose loser is closed. The reader goroutine is started before any listener is attached (two listed findings). Message continuity across the switch, liveness of a conformant upgrade and timer timing are not decided.",
+      TB, "DESIGN.md §3 C08")
+
 UNDER_CONSTRUCTION = "static rule set designed in DESIGN.md §3 but its checker is not built yet in this revision; not claimed until it is"
 
 def main():
